@@ -1,6 +1,7 @@
 /- The `world` request kind: run the timed model at `K = Float` on a recorded message history. -/
 import DriverLib.Gens
 import Wheatley.Model.World
+import DriverLib.ParseDrv
 open Lean Wheatley
 
 namespace Drv
@@ -13,12 +14,31 @@ def asSVal (j : Json) : R SVal :=
   | .num n => if n.exponent == 0 then pure (.int n.mantissa) else pure (.flt 0)
   | _ => throw "setting value"
 
-/-- `json_to_row_generator` for the payload shapes the harness sends (see `Parse` for the general
-model of malformed payloads).  `none` = `RowGenParseError`. -/
+partial def jvalOfJson : Json → Parse.JVal
+  | .null => .null
+  | .bool b => .bool b
+  | .num n => .int n.mantissa          -- (the harness sends integers only)
+  | .str s => .str s.toList
+  | .arr xs => .arr (xs.toList.map jvalOfJson)
+  | .obj kvs => .obj (kvs.toList.map (fun (k, v) => (k, jvalOfJson v)))
+
+/-- `json_to_row_generator`: `"type": "method"` payloads go through the model `Parse.rowGenMethod`;
+for compositions the harness supplies the generator description built from the fetched payload
+(`model_gen`), or nothing when the reference itself is malformed.  `none` = `RowGenParseError`. -/
 def decodeRowGenJson (j : Json) : R (Option Gen) := do
-  match fldOpt j "model_gen" with
-  | some g => decodeGen g
-  | none => return none
+  match fldOpt j "json" with
+  | some raw =>
+    match fldOpt raw "type" with
+    | some (.str "method") => return Parse.rowGenMethod realChars (jvalOfJson raw)
+    | some (.str "composition") =>
+      match fldOpt j "model_gen" with
+      | some g => decodeGen g
+      | none => return none
+    | _ => return none
+  | none =>
+    match fldOpt j "model_gen" with
+    | some g => decodeGen g
+    | none => return none
 
 def decodeMsg (j : Json) : R Msg := do
   match (← strF j "m") with
@@ -35,7 +55,17 @@ def decodeMsg (j : Json) : R Msg := do
   | "setting" =>
     let kvs ← asList (fun p => do
       match (← asArr p) with
-      | [k, v] => return ((← asStr k), (← asSVal v))
+      | [k, v] =>
+        let key ← asStr k
+        let sv ← asSVal v
+        -- `int("200")` / `int(True)`: the rhythm's `int(value)` on a string or a bool
+        let sv' : SVal := match key, sv with
+          | "peal_speed", .str s => match Parse.pyInt realChars s.toList with
+              | some n => .int n
+              | none => .str s
+          | "peal_speed", .bool b => .int (if b then 1 else 0)
+          | _, v => v
+        return (key, sv')
       | _ => throw "setting pair") (← fld j "kvs")
     return .setting kvs
   | "row_gen" => return .rowGen (← decodeRowGenJson j)
